@@ -456,6 +456,60 @@ def run(ctx: Any, prog: Program) -> None:
     # `self.lump_layout[KEY]` is how the record width follows the BSP flavour (Chaos v25 widens indexes).  A side that takes the table entry
     # only under a further condition (`layout[K] if vers >= 12 else '<H'`) while the other side always takes it disagrees for the flavours
     # in between.
+    # ---- L27: what a reader took from the file is what reaches the record ---------------------------------------------------------------------
+    # a local that holds values unpacked from the lump (directly, or built from them: `lighting_origin = Vec(lx, ly, lz)`) is not re-bound
+    # later to something that has nothing to do with it - a "default" filled in when some flag is clear throws the stored value away, and the
+    # writer, which stores the field unconditionally, is no longer the inverse
+    ctx.rule('C11.L27', 'lump readers do not replace a value taken from the file by an unrelated one', floor=1)
+    n27 = 0
+    for rname, rfn in sorted(ms.items()):
+        if not rname.startswith('_lmp_read_') and rname not in INLINE:
+            continue
+        if 'write' in rname:
+            continue
+        slot_names: Set[str] = set()
+        for a in walk_no_nested(rfn):
+            if isinstance(a, ast.Assign) and any(isinstance(c, ast.Call) and (dotted(c.func) or '').split('.')[-1] in ('struct_read', 'unpack', 'unpack_from', 'iter_unpack') for c in ast.walk(a.value)):
+                slot_names |= {x.id for t in a.targets for x in ast.walk(t) if isinstance(x, ast.Name)}
+            if isinstance(a, ast.For) and any(isinstance(c, ast.Call) and (dotted(c.func) or '').split('.')[-1] in ('iter_unpack',) for c in ast.walk(a.iter)):
+                slot_names |= {x.id for x in ast.walk(a.target) if isinstance(x, ast.Name)}
+        if not slot_names:
+            continue
+        derived: Dict[str, int] = {}
+        assigns = sorted([a for a in walk_no_nested(rfn) if isinstance(a, ast.Assign) and len(a.targets) == 1 and isinstance(a.targets[0], ast.Name)], key=lambda a: a.lineno)
+        for a in assigns:
+            nm = a.targets[0].id
+            uses = {x.id for x in ast.walk(a.value) if isinstance(x, ast.Name)}
+            if uses & (slot_names | set(derived)) and nm not in slot_names:
+                derived.setdefault(nm, a.lineno)
+        READS = ('struct_read', 'unpack', 'unpack_from', 'iter_unpack', 'read_array', 'read')
+        from_file = slot_names | set(derived)
+        for a in assigns:
+            nm = a.targets[0].id
+            earlier_read = [b for b in assigns if b.targets[0].id == nm and b.lineno < a.lineno and (nm in slot_names or any(isinstance(c, ast.Call) and (dotted(c.func) or '').split('.')[-1] in READS for c in ast.walk(b.value))
+                                                                                              or {x.id for x in ast.walk(b.value) if isinstance(x, ast.Name)} & slot_names)]
+            if not earlier_read and nm not in slot_names:
+                continue
+            if any(isinstance(c, ast.Call) and (dotted(c.func) or '').split('.')[-1] in READS for c in ast.walk(a.value)):
+                continue          # another read from the file
+            uses = {x.id for x in ast.walk(a.value) if isinstance(x, ast.Name)}
+            if nm in uses:
+                continue          # a conversion of the value itself
+            guard = next((g.test for g in _anc11(bsp, a, rfn) if isinstance(g, ast.If)), None)
+            if guard is None:
+                continue
+            # only what is read per record counts: names bound inside the loop that also holds this assignment (the lump version, the record
+            # size and the like are fixed for the whole lump and are configuration, not content)
+            loop_ = next((g for g in _anc11(bsp, a, rfn) if isinstance(g, (ast.For, ast.While))), None)
+            if loop_ is None:
+                continue
+            in_loop = {t.id for b in ast.walk(loop_) if isinstance(b, ast.Assign) for tt in b.targets for t in ast.walk(tt) if isinstance(t, ast.Name)}
+            data_dep = {x.id for x in ast.walk(guard) if isinstance(x, ast.Name)} & (from_file - {nm}) & in_loop
+            n27 += 1
+            ctx.check('C11.L27', not data_dep, bsp, a, f'BSP.{rname} replaces `{nm}`, which was taken from the lump, by `{U(a.value)[:50]}` when `{U(guard)[:60]}` - a condition on {sorted(data_dep)}, i.e. on the content '
+                      'of the same record: the stored value never reaches the record although the writer stores the field whatever that content is', func=f'BSP.{rname}', text=f'{rname}: `{nm}` keeps what was read')
+    ctx.check('C11.L27', True, bsp, bsp.tree, f'{n27} later re-bindings of file-derived locals examined', func='BSP', text='re-bindings of file-derived locals examined')
+
     # ---- L26: a side lump filled by a writer that serves several lumps keeps what the previous call stored, unless this call has something -----
     # `_write_faces_common` is the body of three `_lmp_write_*` methods and also stores the FACEIDS lump, which belongs to all of them.  The
     # rebuilds run one after another, so the last one wins: a call whose own list is empty (an LDR-only map's HDR faces) has to leave the lump
@@ -941,6 +995,7 @@ def run(ctx: Any, prog: Program) -> None:
 
 
 MUTANTS = [
+    {'id': 'prop_lighting_origin_defaulted_by_flag', 'file': 'bsp.py', 'find': "            flags = StaticPropFlags(flags)\n", 'replace': "            flags = StaticPropFlags(flags)\n            if StaticPropFlags.HAS_LIGHTING_ORIGIN not in flags:\n                lighting_origin = origin.copy()\n", 'expect': 'C11.L27'},
     {'id': 'detail_shape_size_never_written', 'file': 'bsp.py', 'find': "                shape_ang = prop.shape_angle\n                shape_size = prop.shape_size\n", 'replace': "                shape_ang = prop.shape_angle\n                shape_size = 1\n", 'expect': 'C11.L3'},
     {'id': 'faceids_rebuilt_by_every_split_faces_writer', 'file': 'bsp.py', 'find': "            if hammer_ids:\n                self.lumps[BSP_LUMPS.FACEIDS].data", 'replace': "            if get_orig_face is not None:\n                self.lumps[BSP_LUMPS.FACEIDS].data", 'expect': 'C11.L26'},
     {'id': 'ok_faceids_guarded_by_faces', 'file': 'bsp.py', 'find': "            if hammer_ids:\n                self.lumps[BSP_LUMPS.FACEIDS].data", 'replace': "            if len(hammer_ids) > 0:\n                self.lumps[BSP_LUMPS.FACEIDS].data", 'expect': None},
